@@ -24,6 +24,9 @@ claimed = {
  "C02": dict(level="fault_enumeration", engine="E1-sched", technique="exhaustive fault-position enumeration on the real sender/receiver pair under the controlled scheduler: every byte position of every stream direction x fault kind, each at deviation bound 0 and a stride of positions at bound 1",
    text="For each workload the fault-free execution yields the byte length of every stream direction (control and data, both ways); then one execution per (stream direction, byte position, fault) with the fault armed exactly there: peer closes with code 0, abrupt path loss (30 s idle timeout), cancel of the sender, cancel of the receiver, bit flip of every checksum and payload byte, source file shrinking or vanishing. Oracle: a side that returns nil implies a complete identical tree; a sender that returns nil implies every file was confirmed; nobody hangs beyond the code's own designed timeouts (11 virtual minutes).",
    note="Trusted: vquic fault semantics (close => pending and later operations fail, unread data lost; loss => idle timeout). One fault per execution. Obstructed output paths are covered by C07/C15 harnesses, not here. Deviation bound 1 only on a stride of positions in the quick tier.", ref="§4 C02"),
+ "C05": dict(level="model_checking", engine="E1-sched", technique="stateless model checking with an invariant evaluated on the real disk at every file-system point of the receiver (controlled scheduler; split writes; enumerated write faults)",
+   text="Interrupted-run workloads (two files of 3 and 2 chunks; fresh, partial and holed pre-existing state; 0 and 200 ms latency so that the 1 s metadata flusher fires mid-transfer; an extra FlushAllFlushers thread as the application runs on abort) are explored within deviation bound 1 (2 in the thorough tier on the tight cases), additionally with every single write / metadata-write / rename of the receiver failing (disk full) at each of its phases. Because only one thread runs at a time the disk content at a file-system point is what a kill there would leave; at every such point every metadata file the real LoadSidecar accepts must mark only chunks whose bytes in the output file equal the source, and a readable version, once it exists, must never be lost or lose bits.",
+   note="Crash model: process kill (effects of completed syscalls; WriteFile and WriteAt split in halves; rename atomic). Power-loss reordering is not modelled. Trusted: vrt/vquic as for C03.", ref="§4 C05"),
 }
 todo = {}
 props=[json.loads(l) for l in open('/verif/properties.jsonl')]
